@@ -43,6 +43,14 @@ Example C18_nat_history_nonvacuous :
   nat_run (mode0 false) [MLookupDone (Some (1, 2)); MPingFrom (3, 4); MRefresh; MLookupDone (Some (5, 6)); MPingFrom (1, 2); MRefresh] = true.
 Proof. reflexivity. Qed.
 
+(* however many lookups end in the same loop iteration and in whatever order they are gone through: the address that is
+   probed with a ping is the address the node holds afterwards, and it is held as unconfirmed until the ping comes back *)
+Theorem C18_probed_address_is_the_adopted_one : forall votes m,
+  let '(m', p) := last_change m votes in
+  match p with Some a => m_public m' = Some a /\ m_firewalled m' = true | None => m' = m end.
+Proof. exact probed_address_is_the_adopted_one. Qed.
+
+Print Assumptions C18_probed_address_is_the_adopted_one.
 Print Assumptions C18_client_rules.
 Print Assumptions C18_ro_requester_never_added.
 Print Assumptions C18_ro_reply_ignored.
